@@ -5,6 +5,7 @@ Property theorems only; helper lemmas live in Proofs/Forest.lean.
 updates, re-parentings, removals, base-frame changes and interleaved queries.
 -/
 import TrimeshVerif.Proofs.Forest
+import TrimeshVerif.Proofs.ForestEdgelist
 import TrimeshVerif.Generated.C09Table
 namespace TV.C09
 open TV.Forest
@@ -166,5 +167,32 @@ def demoOps : List (Op Nat Z) :=
 example :
     (doGet (run TV.Generated.c09Table (Graph.init 0) demoOps) 0 3).1 = some ⟨1010⟩ ∧
     (doGet (run TV.Generated.c09Table (Graph.init 0) demoOps) 1 3).1 = some ⟨1009⟩ := by decide
+
+section edgelist
+variable [Mul G] [One G] [Inv G]
+
+/-- **the edge list export rebuilds an equivalent graph**: load `to_edgelist()` of any well-formed forest into a
+    fresh graph with `from_edgelist` (one `update(child, parent, matrix)` per entry, in export order): the
+    rebuilt graph resolves every pair of frames to the same transform, or to the same "no path" error, as the
+    original - whatever history of updates, re-parentings and removals produced the original -/
+theorem C09_edgelist_roundtrip (f : Forest N G) (h : WF f) (a b : N) :
+    getRaw (fromEdgelist (toEdgelist f)) a b = getRaw f a b :=
+  edgelist_roundtrip ⟨h.parents_nodup, h.edges_nodup, h.consistent⟩ a b
+
+/-- the rebuilt graph holds exactly the exported edges (in reverse dictionary order) and one parent entry per edge -/
+theorem C09_edgelist_rebuilt (f : Forest N G) (h : WF f) :
+    (fromEdgelist (toEdgelist f)).edges = f.edges.reverse ∧
+    (fromEdgelist (toEdgelist f)).parents = f.edges.reverse.map (fun e => (e.1.2, e.1.1)) :=
+  fromEdgelist_eq ⟨h.parents_nodup, h.edges_nodup, h.consistent⟩
+
+end edgelist
+
+/-- non-vacuity: a forest built by updates and one re-parenting is rebuilt from its edge list with the same
+    edges and the same parents -/
+example :
+    let f : Forest Nat Int := addEdge (addEdge (addEdge (addEdge Forest.empty 0 1 5) 1 2 7) 0 3 2) 3 2 9
+    (fromEdgelist (toEdgelist f)).edges = f.edges.reverse ∧ parentOf (fromEdgelist (toEdgelist f)) 2 = some 3 ∧
+    parentOf f 2 = some 3 ∧ edgeOf f 1 2 = none := by
+  decide
 
 end TV.C09
